@@ -204,16 +204,32 @@ class Processor(ABC):
                 new_target, persisted = self._process_recursive(target, materialize_as=name)
                 if new_target is not target:
                     result = new_target.materialized(name=name)
-                    if result.payload is not None:
+                    # Engines may wrap relations in their own marker relations
+                    # (e.g. sql.Select); look through those for the relation
+                    # that holds, or should receive, the payload.
+                    inner = result
+                    while (
+                        inner.payload is None
+                        and isinstance(inner, MarkerRelation)
+                        and not isinstance(inner, Materialization)
+                    ):
+                        inner = inner.target
+                    if inner.payload is not None:
                         # This operation has been simplified away
                         # (perhaps it's now a materialization of a
                         # leaf).
-                        original.attach_payload(result.payload)
+                        original.attach_payload(inner.payload)
                         return result, True
                 else:
                     result = original
+                    inner = original
                 if persisted:
-                    payload = new_target.payload
+                    # The transfer that holds the persisted payload may also be
+                    # wrapped in engine-specific marker relations.
+                    payload_holder = new_target
+                    while payload_holder.payload is None and isinstance(payload_holder, MarkerRelation):
+                        payload_holder = payload_holder.target
+                    payload = payload_holder.payload
                 elif original.is_join_identity:
                     payload = target.engine.get_join_identity_payload()
                 elif original.max_rows == 0:
@@ -224,8 +240,8 @@ class Processor(ABC):
                 # the processed one, so it's used every time that the
                 # original relation tree is processed.
                 original.attach_payload(payload)
-                if result is not original:
-                    result.attach_payload(payload)
+                if result is not original and isinstance(inner, Materialization):
+                    inner.attach_payload(payload)
                 return result, True
             case MarkerRelation(target=target):
                 new_target, persisted = self._process_recursive(target, materialize_as=materialize_as)
